@@ -1967,7 +1967,8 @@ def mnemo_from_att(prefix, name, args, asm_format):
         'suffix_one_iflt',
         'suffix_one_ptr',
         ]:
-        if name.startswith('test') or name.startswith('xchg'):
+        if (name.startswith('test') or name.startswith('xchg')) \
+                and len(args) == 2:
             # Be liberal in what we accept, because old clang has bugs
             if args[1][x86_afs.ad] != False: args.reverse()
         if name[:-1] in att_mnemo_table[table]:
@@ -2819,12 +2820,14 @@ class x86_mn(x86_mn_base):
             args = []
         from miasmx.core.parse_ad import parse_ad
         args = [ parse_ad(a) for a in args ]
-        if name == 'push' and args[0][x86_afs.size] == x86_afs.u16 \
+        if name == 'push' and len(args) == 1 \
+                and args[0][x86_afs.size] == x86_afs.u16 \
                 and not [k for k in args[0] if type(k) == int]:
             # 'push WORD PTR 20' is the syntax of the 16-bit immediate push;
             # an operand with a register ('push WORD PTR [ecx]') is memory
             args[0][x86_afs.ad] = False
-        if name.startswith('test') or name.startswith('xchg'):
+        if (name.startswith('test') or name.startswith('xchg')) \
+                and len(args) == 2:
             # Be liberal in what we accept, because old clang has bugs
             if args[1][x86_afs.ad] != False: args.reverse()
         if name == 'fwait': name = 'wait'
